@@ -12,7 +12,7 @@ def table__STRING_ESCAPES : List (Char × Chars) := [(Char.ofNat 34, [Char.ofNat
 /-- `_format_default_value`, translated statement by statement. `s` is the schema (only the
     `print_ast(ast_node_from_value(..))` form looks at it), `hasDefault`/`dv`/`ty` are the attributes of the input value. -/
 def formatDefaultValue (s : SchemaD) (hasDefault : Bool) (dv : J) (ty : Ty) : Option Chars :=
-  (if (!hasDefault) then none else (if Prims.isNone dv then some "null".toList else (if ((Prims.isStr dv) && (!(Prims.baseIsKind s ty Kind.enum))) then some ("\"".toList ++ Prims.escapeWith table__STRING_ESCAPES (Prims.pyStr dv) ++ "\"".toList) else (Prims.printAstOfValueStrict s dv ty))))
+  (if (!hasDefault) then none else (if Prims.isNone dv then some "null".toList else (if ((Prims.isStr dv) && (Prims.baseIsOneOf ty ["String", "ID"])) then some ("\"".toList ++ Prims.escapeWith table__STRING_ESCAPES (Prims.pyStr dv) ++ "\"".toList) else (Prims.printAstOfValueStrict s dv ty))))
 
 /-- branch tags of `_format_default_value` in source order -/
 def formatBranches : List String := ["try-raise", "printAstStrict", "const:null", "percent-escaped:\"%s\"", "none"]
